@@ -181,8 +181,13 @@ class Alignment(AbstractAlignment):
         return iter(self.unitary_alignments)
 
     def take_until_limit(self, x_limit):
-        for unitary_alignment in sorted(self.unitary_alignments, key=lambda unit_align: unit_align.bounds[1]):
-            if unitary_alignment.bounds[1] > x_limit:
+        """
+        Yields the unitary alignments that end before x_limit, leftmost first. The leftmost-ending unitary alignment
+        is always yielded, even beyond x_limit, so that the caller is guaranteed to make progress.
+        """
+        for i, unitary_alignment in enumerate(sorted(self.unitary_alignments,
+                                                     key=lambda unit_align: unit_align.bounds[1])):
+            if i > 0 and unitary_alignment.bounds[1] > x_limit:
                 break
             yield unitary_alignment
 
